@@ -39,8 +39,12 @@ inductive WPc
 
 abbrev Cache := List (Nat × Nat)   -- object id ↦ checksum; keys unique
 
-def Cache.get (c : Cache) (id : Nat) : Option Nat := (c.find? (·.1 == id)).map (·.2)
-def Cache.erase (c : Cache) (id : Nat) : Cache := c.filter (·.1 != id)
+def Cache.get : Cache → Nat → Option Nat
+  | [], _ => none
+  | (k, v) :: rest, id => if k = id then some v else Cache.get rest id
+def Cache.erase : Cache → Nat → Cache
+  | [], _ => []
+  | (k, v) :: rest, id => if k = id then Cache.erase rest id else (k, v) :: Cache.erase rest id
 def Cache.put (c : Cache) (id cs : Nat) : Cache := (Cache.erase c id) ++ [(id, cs)]
 
 structure St where
@@ -131,7 +135,14 @@ def run (fx : Bool) (s : St) (sched : List Action) : St :=
   sched.foldl (fun s a => (step fx s a).getD s) s
 
 def init (types : List Kind) (initial : Cache) (watch : List Ev) : St :=
-  { types := types, cache := initial, pending := watch }
+  { types := types, cache := initial, pending := watch, syncView := initial }
+
+/-- What a hook does with a delivered event on top of its view of the cluster. -/
+def applyEv (c : Cache) (e : Ev) : Cache :=
+  if e.kind == .deleted then c.erase e.id else c.put e.id e.cs
+
+/-- Two caches are the same map. -/
+def Cache.Same (a b : Cache) : Prop := ∀ id, a.get id = b.get id
 
 /-- Quiescent: the watch list is consumed, nobody is in flight, the binding is unlocked. -/
 def Quiescent (s : St) : Prop :=
